@@ -9,7 +9,7 @@ fn weff(w: usize, len: usize, m: usize) -> usize { if w == 0 { len.max(m) } else
 
 fn c10_one(recs: &[Vec<u8>], w: usize, m: usize, threads: usize) -> Option<Vec<(String, String)>> {
     let sc = Scratch::new("lines");
-    let inp = sc.path("in.fa");
+    let inp = sc.path(in_name());
     let o1 = sc.path("s2m.txt");
     let o2 = sc.path("m2s.txt");
     write_fasta(&inp, recs);
@@ -135,6 +135,25 @@ pub fn c10(o: &Opts) -> Outcome {
                 return Outcome { cases, witness: Some(wt) };
             }
         }
+    }
+    // identical long records handled by many workers in lock step: every new minimiser is met by several workers at once
+    {
+        let one: Vec<u8> = random_seq(&mut rng, 3000, 0);
+        let recs: Vec<Vec<u8>> = (0..64).map(|_| one.clone()).collect();
+        for round in 0..(if o.thorough { 30 } else { 4 }) {
+            cases += recs.len() as u64;
+            if let Some(mut wt) = c10_one(&recs, 12, 7, 16) {
+                for kv in wt.iter_mut() { if kv.0 == "records" { kv.1 = format!("<64 copies of one random 3000-base record, seed {}>", o.seed); } }
+                wt.push(("round".into(), round.to_string()));
+                return Outcome { cases, witness: Some(wt) };
+            }
+        }
+    }
+    // multi-member gzip input
+    {
+        let recs: Vec<Vec<u8>> = vec![b"ACGTTGCATTGACC".to_vec(), b"GGATCGGATC".to_vec(), b"ACGTTGCATTGACCA".to_vec(), b"TTGACCATGGCATT".to_vec(), b"AC".to_vec()];
+        cases += recs.len() as u64;
+        if let Some(wt) = with_gzm(|| c10_one(&recs, 6, 3, 2)) { return Outcome { cases, witness: Some(wt) }; }
     }
     // an output path that already holds a longer listing
     {
